@@ -411,7 +411,8 @@ def _flist(depth):
   lo = 0 if EMPTY_LISTS else 1
   return st.fixed_dictionaries({
     "m": st.sampled_from(["cascade", "parallel"]),
-    "items": st.lists(_member(depth), min_size=lo, max_size=3),
+    "items": st.one_of(st.lists(_member(depth), min_size=lo, max_size=3),
+                       st.tuples(_member(0), st.integers(2, 4)).map(lambda t: [t[0]] * t[1])),
     "ctor": st.sampled_from(["args", "args", "list"])})
 
 
@@ -441,7 +442,18 @@ def build_member(m):
 
 def build_list(fl):
   cls = CascadeFilter if fl["m"] == "cascade" else ParallelFilter
-  members = [build_member(m) for m in fl["items"]]
+  members = []
+  seen = []
+  for m in fl["items"]:
+    # equal member specifications are the *same object* half of the time (f, f, f - the way
+    # gammatone.sampled repeats one section), independent equal objects otherwise
+    key = repr(m)
+    prev = [o for k, o in seen if k == key]
+    if prev and m["m"] == "filt" and len(key) % 2:
+      members.append(prev[0])
+    else:
+      members.append(build_member(m))
+      seen.append((key, members[-1]))
   # cls(single_list) means "this is the list of members", so a lone raw
   # coefficient member has to be passed inside a list
   if fl["ctor"] == "list" or (len(members) == 1 and not callable(members[0])):
@@ -580,7 +592,8 @@ def run_lists(case):
 
 @st.composite
 def strat_fir_(draw):
-  b = draw(st.lists(_coef, min_size=1, max_size=7))
+  b = draw(st.one_of(st.lists(_coef, min_size=1, max_size=7), st.lists(_coef, min_size=1, max_size=7),
+                     st.lists(st.integers(-8, 8), min_size=66, max_size=90).map(lambda l: l[:-1] + [3])))
   g = draw(st.one_of(st.none(), st.none(), st.sampled_from([1, -1, 2, 0.5, -4.0, 1.0]),
                      st.sampled_from([Fraction(3, 4), Fraction(-2, 3), Fraction(1, 3), Fraction(5, 2)])))
   return {"f": {"b": b, "a": None if g is None else [g], "fam": "fir",
